@@ -9,6 +9,8 @@ import Proofs.MarkEffect
 import Proofs.MarkPlan
 import PM.TypePlan
 import Props.C14
+import PM.KeptChildren
+import Proofs.TypePlan
 namespace PM.C13
 open PM
 
@@ -488,5 +490,64 @@ theorem nodePlanners_local (S : Schema) (tr tr' : Tr) (pos : Nat)
         · rename_i found _
           exact key _ (.inr (.inl ⟨found, rfl⟩)) h
   · exact key _ (.inr (.inr ⟨n, v, rfl⟩)) h
+
+/-! ## whole-operation theorems: `clear_incompatible`, `set_node_markup`, `set_block_type`
+
+"Changing block type or node markup keeps the children (minus content the new type cannot hold)".
+Helper lemmas: Proofs/TypePlan.lean; the specification functions `keptChildren`, `retypeFill`,
+`retypedChildren`: PM/KeptChildren.lean (tied to the real `set_block_type` by the `keptChildren`
+request of harness/props/c13.py).
+
+The three operations reach `Transform.replace` (→ `replace_step` → `Fitter`) in two places: the
+filler insertion of `clear_incompatible` and the leaf case of `set_node_markup`.  The model replays
+the Fitter's answers from `PSt.fits`; the theorems below are about runs in which the Fitter was not
+needed (`st.fits = []`: every such replace has nothing to do or fits trivially — a run that would
+need it fails with `.internal` under this hypothesis). -/
+
+/-- **`Transform.clear_incompatible(pos, parent_type, match)`**, token level.  If the operation
+    succeeds (without the Fitter), then for the node found at `pos`, if it is a node with content:
+    it occupies the window `[pos, pos + size)`, and afterwards the document is the same token list
+    with that node's children replaced by `retypedChildren` = `keptChildren ++ retypeFill`: the
+    left-to-right filter by the automaton of `parent_type` (from state `q0`), every kept child
+    stripped of the marks `parent_type` does not allow, newlines in kept text replaced by a space
+    unless `parent_type` is a code type, then the fillers when the walk does not end in a valid end
+    state.  The node's own open token, its close token and every token outside the node are
+    unchanged. -/
+theorem clearIncompatible_spec (S : Schema) (st st' : PSt) (pos : Nat) (pty : TypeId) (q0 : Nat)
+    (hfit : st.fits = []) (h : st.clearIncompatible S pos pty q0 = .ok st') :
+    ∃ node, st.tr.doc.nodeAt pos = .ok (some node) ∧
+      (node.isLeaf = false →
+        let L := ftoks st.tr.doc.kids
+        (L.drop pos).take node.size = node.headTok :: (ftoks node.kids ++ [Tok.cl]) ∧
+        ftoks st'.tr.doc.kids = L.take pos ++
+          node.headTok :: (ftoks (retypedChildren S pty node.kids q0) ++ Tok.cl :: L.drop (pos + node.size))) := by
+  obtain ⟨node, hnode, _, _, _, htoks⟩ := clearIncompatible_effect S st st' pos pty q0 hfit h
+  refine ⟨node, hnode, fun hnl => ⟨?_, htoks hnl⟩⟩
+  cases node with
+  | text => simp [Node.isLeaf] at hnl
+  | leaf => simp [Node.isLeaf] at hnl
+  | elem t a m kids =>
+    obtain ⟨hL, hlen⟩ := nodeAt_window st.tr.doc _ pos hnode rfl
+    rw [hL, List.append_assoc, List.drop_left' (by simp; omega)]
+    simp only [Node.headTok, Node.kids]
+    rw [List.take_left' (by rw [Node.toks_length])]
+    simp
+
+/-- the steps `clear_incompatible` records, in the order applied: the `RemoveMarkStep`s of the walk,
+    the filler insertion at the original end of the content, the collected `ReplaceStep`s last to
+    first (`clearPlan`, Proofs/TypePlan.lean) -/
+theorem clearIncompatible_steps (S : Schema) (st st' : PSt) (pos : Nat) (pty : TypeId) (q0 : Nat)
+    (hfit : st.fits = []) (h : st.clearIncompatible S pos pty q0 = .ok st') :
+    ∃ node, st.tr.doc.nodeAt pos = .ok (some node) ∧
+      st'.tr.steps = st.tr.steps ++ clearPlan S pty node.kids q0 (pos + 1) := by
+  obtain ⟨node, hnode, _, hs, _, _⟩ := clearIncompatible_effect S st st' pos pty q0 hfit h
+  exact ⟨node, hnode, hs⟩
+
+/-- the newline rule on a small text: `a \r\n b \n` with marks `keep` becomes `a ␠ b ␠`, the
+    spaces carrying the mark set `sp` -/
+example (keep sp : Marks) :
+    nlNodes keep sp [97, 13, 10, 98, 10] =
+      [.text [97] keep, .text [32] sp, .text [98] keep, .text [32] sp] := by
+  simp [nlNodes]
 
 end PM.C13
